@@ -63,9 +63,15 @@ def global_fingerprint():
     for mname in sorted(sys.modules):
         if not (mname == "pyab_experiment" or mname.startswith("pyab_experiment.")):
             continue
-        if mname.startswith("pyab_experiment.sly"):
-            continue
         mod = sys.modules[mname]
+        if mname.startswith("pyab_experiment.sly"):
+            # vendored runtime: only small mutable containers kept at class level (e.g. parser stacks hoisted to the class)
+            for k, v in sorted(vars(mod).items()):
+                if isinstance(v, type) and getattr(v, "__module__", None) == mname:
+                    for ck, cv in sorted(vars(v).items()):
+                        if not ck.startswith("__") and isinstance(cv, (list, dict, set)) and len(cv) < 200 and not ck.startswith("_"):
+                            items.append(_summ(mname + "." + k, ck, cv))
+            continue
         for k, v in sorted(vars(mod).items()):
             if k.startswith("__"):
                 continue
